@@ -371,3 +371,120 @@ pub fn all_ge_128(s: &[u8]) -> (r: bool)
     }
     true
 }
+
+// =====================================================================================
+// Abstract (spec-level) objects: the mathematical value a lopdf Object denotes.
+// Layouts that involve values the code builds on the fly (the trailer after `set`) are stated over these.
+// =====================================================================================
+pub enum SObj {
+    Null,
+    Boolean(bool),
+    Integer(i64),
+    Real(f32),
+    Name(Seq<u8>),
+    String(Seq<u8>, StringFormat),
+    Array(Seq<SObj>),
+    Dictionary(Seq<(Seq<u8>, SObj)>),
+    Stream(Seq<(Seq<u8>, SObj)>, Seq<u8>),
+    Reference(ObjectId),
+}
+pub type SDict = Seq<(Seq<u8>, SObj)>;
+
+pub open spec fn abs(o: Object) -> SObj decreases o {
+    match o {
+        Object::Null => SObj::Null,
+        Object::Boolean(b) => SObj::Boolean(b),
+        Object::Integer(v) => SObj::Integer(v),
+        Object::Real(v) => SObj::Real(v),
+        Object::Name(n) => SObj::Name(n@),
+        Object::String(t, f) => SObj::String(t@, f),
+        Object::Array(a) => SObj::Array(abs_items(a@, a@.len() as int)),
+        Object::Dictionary(d) => SObj::Dictionary(abs_dict(d)),
+        Object::Stream(st) => SObj::Stream(abs_dict(st.dict), st.content@),
+        Object::Reference(id) => SObj::Reference(id),
+    }
+}
+pub open spec fn abs_items(a: Seq<Object>, i: int) -> Seq<SObj> decreases a, i {
+    if i <= 0 || i > a.len() { Seq::<SObj>::empty() } else { abs_items(a, i - 1).push(abs(a[i - 1])) }
+}
+pub open spec fn abs_entries(e: Seq<(Vec<u8>, Object)>, i: int) -> SDict decreases e, i {
+    if i <= 0 || i > e.len() { Seq::<(Seq<u8>, SObj)>::empty() } else { abs_entries(e, i - 1).push((e[i - 1].0@, abs(e[i - 1].1))) }
+}
+pub open spec fn abs_dict(d: Dictionary) -> SDict decreases d { abs_entries(d.entries@, d.entries@.len() as int) }
+
+pub open spec fn s_sp_before(o: SObj) -> bool { o is Null || o is Boolean || o is Integer || o is Real || o is Reference }
+pub open spec fn s_sp_after(o: SObj) -> bool { o is Null || o is Boolean || o is Integer || o is Real || o is Name || o is Reference || o is Stream }
+
+pub open spec fn enc_s(o: SObj) -> Seq<u8> decreases o {
+    match o {
+        SObj::Null => KW_NULL(),
+        SObj::Boolean(b) => if b { KW_TRUE() } else { KW_FALSE() },
+        SObj::Integer(v) => dec_int(v as int),
+        SObj::Real(v) => fmt_f32(v),
+        SObj::Name(n) => enc_name(n),
+        SObj::String(t, f) => match f { StringFormat::Literal => enc_lit(t), StringFormat::Hexadecimal => enc_hex(t) },
+        SObj::Array(a) => seq![0x5bu8] + enc_s_items(a, a.len() as int) + seq![0x5du8],
+        SObj::Dictionary(d) => enc_s_dict(d),
+        SObj::Stream(d, c) => enc_s_dict(d) + KW_STREAM() + c + KW_ENDSTREAM(),
+        SObj::Reference(id) => enc_ref(id),
+    }
+}
+pub open spec fn enc_s_items(a: Seq<SObj>, i: int) -> Seq<u8> decreases a, i {
+    if i <= 0 || i > a.len() { Seq::<u8>::empty() } else { enc_s_items(a, i - 1) + sep(i - 1 > 0 && s_sp_before(a[i - 1])) + enc_s(a[i - 1]) }
+}
+pub open spec fn enc_s_entries(e: SDict, i: int) -> Seq<u8> decreases e, i {
+    if i <= 0 || i > e.len() { Seq::<u8>::empty() } else { enc_s_entries(e, i - 1) + enc_name(e[i - 1].0) + sep(s_sp_before(e[i - 1].1)) + enc_s(e[i - 1].1) }
+}
+pub open spec fn enc_s_dict(d: SDict) -> Seq<u8> decreases d, d.len() + 1 { seq![0x3cu8, 0x3cu8] + enc_s_entries(d, d.len() as int) + seq![0x3eu8, 0x3eu8] }
+
+// the concrete encoder spec and the abstract one agree
+pub proof fn lemma_abs_items_len(a: Seq<Object>, i: int)
+    requires 0 <= i <= a.len() ensures abs_items(a, i).len() == i, forall|j: int| 0 <= j < i ==> abs_items(a, i)[j] == abs(a[j])
+    decreases i
+{ if i > 0 { lemma_abs_items_len(a, i - 1); } }
+pub proof fn lemma_abs_entries_len(e: Seq<(Vec<u8>, Object)>, i: int)
+    requires 0 <= i <= e.len() ensures abs_entries(e, i).len() == i, forall|j: int| 0 <= j < i ==> abs_entries(e, i)[j] == (e[j].0@, abs(e[j].1))
+    decreases i
+{ if i > 0 { lemma_abs_entries_len(e, i - 1); } }
+
+pub proof fn lemma_enc_abs(o: Object)
+    ensures enc_obj(o) == enc_s(abs(o)), sp_before(o) == s_sp_before(abs(o)), sp_after(o) == s_sp_after(abs(o))
+    decreases o, 0nat
+{
+    match o {
+        Object::Array(a) => { lemma_enc_abs_items(a@, a@.len() as int, a@.len() as int); lemma_abs_items_len(a@, a@.len() as int); }
+        Object::Dictionary(d) => { lemma_enc_abs_dict(d); }
+        Object::Stream(st) => { lemma_enc_abs_dict(st.dict); }
+        _ => {}
+    }
+}
+pub proof fn lemma_enc_abs_items(a: Seq<Object>, i: int, n: int)
+    requires 0 <= i <= n <= a.len()
+    ensures enc_items(a, i) == enc_s_items(abs_items(a, n), i)
+    decreases a, i
+{
+    lemma_abs_items_len(a, n);
+    if i > 0 {
+        lemma_enc_abs_items(a, i - 1, n);
+        lemma_enc_abs(a[i - 1]);
+    }
+}
+pub proof fn lemma_enc_abs_entries(e: Seq<(Vec<u8>, Object)>, i: int, n: int)
+    requires 0 <= i <= n <= e.len()
+    ensures enc_entries(e, i) == enc_s_entries(abs_entries(e, n), i)
+    decreases e, i
+{
+    lemma_abs_entries_len(e, n);
+    if i > 0 {
+        lemma_enc_abs_entries(e, i - 1, n);
+        lemma_enc_abs(e[i - 1].1);
+    }
+}
+pub proof fn lemma_enc_abs_dict(d: Dictionary)
+    ensures enc_dict(d) == enc_s_dict(abs_dict(d))
+    decreases d, 1nat
+{
+    let n = d.entries@.len() as int;
+    lemma_enc_abs_entries(d.entries@, n, n);
+    lemma_abs_entries_len(d.entries@, n);
+}
